@@ -168,6 +168,46 @@ def go_coverage(ctx, GOENV):
     return {"statements_covered_percent_by_package": pk, "functions_not_fully_covered": partial[:80]}
 
 
+def crosscheck_vm(ctx, name, cases, model, ROOT, k=40):
+    """Thorough tier: the extracted runner is not trusted blindly - a sample of the request lines is evaluated
+    inside Coq (vm_compute on the same Gallina definition run_line) and compared with what the extracted OCaml
+    program printed.  Returns a list of differences (correspondence 'extraction')."""
+    if ctx.tier != "thorough" or not cases:
+        return []
+    import ast
+    step = max(1, len(cases) // k)
+    idxs = list(range(0, len(cases), step))[:k]
+    sample = [cases[i] for i in idxs if '"' not in cases[i] and len(cases[i]) < 20000]
+    idxs = [i for i in idxs if '"' not in cases[i] and len(cases[i]) < 20000]
+    if not sample:
+        return []
+    coq = os.path.join(ROOT, "coq")
+    vfile = os.path.join(ctx.rundir, "Replay_%s.v" % name)
+    with open(vfile, "w") as f:
+        f.write("From Coq Require Import String List NArith.\nFrom SQLair.Base Require Import Bytes Sexp.\n"
+                "From SQLair.Model Require Import Run.\nImport ListNotations.\nOpen Scope string_scope.\n"
+                "Definition outs := Eval vm_compute in map (fun s => run_line (lit s)) [\n")
+        f.write(";\n".join('"%s"' % c for c in sample))
+        f.write("].\nSet Printing Depth 10000000.\nSet Printing Width 1000000.\nPrint outs.\n")
+    rc, log = sh("timeout 1500 coqc -Q %s SQLair %s" % (coq, vfile), cwd=ctx.rundir, timeout=1600)
+    if rc != 0:
+        return [{"correspondence": "extraction vs vm_compute", "error": "coqc failed on the replay file: " + log[-400:]}]
+    body = log[log.find("["):log.rfind("]") + 1]
+    try:
+        vals = ast.literal_eval(body.replace("%N", "").replace(";", ","))
+    except (ValueError, SyntaxError) as ex:
+        return [{"correspondence": "extraction vs vm_compute", "error": "cannot read Coq's output: %s" % ex}]
+    diffs = []
+    for j, i in enumerate(idxs):
+        got = bytes(vals[j]).decode("latin-1") if j < len(vals) else "<missing>"
+        want = model[i] if i < len(model) else "<missing>"
+        if got != want:
+            diffs.append({"correspondence": "extracted OCaml runner vs vm_compute of the same definition", "case": cases[i][:300],
+                          "vm_compute": got[:300], "extracted": want[:300]})
+    ctx.vm_crosschecked = getattr(ctx, "vm_crosschecked", 0) + len(idxs)
+    return diffs[:5]
+
+
 def ncases(ctx, run, key="n"):
     """number of cases of a run; four times as many when the source the layer mirrors has changed"""
     n = run[key][ctx.tier]
@@ -220,6 +260,7 @@ def run_bind(ctx, pid, run, idx, replay, BUILD, ROOT):
     impl = open(os.path.join(out, "impl.txt")).read().splitlines()
     model = model.splitlines()
     cl = cases.splitlines()
+    res["diffs"] += crosscheck_vm(ctx, "%s%d" % (run["kind"], idx), cl, model, ROOT)
     proj = run["project"]
     ndiff = 0
     for i in range(min(len(impl), len(model))):
@@ -267,6 +308,7 @@ def run_iter(ctx, pid, run, idx, replay, BUILD, ROOT):
     impl = open(os.path.join(out, "impl.txt")).read().splitlines()
     model = model.splitlines()
     cl = cases.splitlines()
+    res["diffs"] += crosscheck_vm(ctx, "%s%d" % (run["kind"], idx), cl, model, ROOT)
     proj = run.get("project", lambda c, l: l)
     ndiff = 0
     for i in range(min(len(impl), len(model))):
@@ -312,6 +354,7 @@ def run_cache(ctx, pid, run, idx, replay, BUILD, ROOT):
     impl = open(os.path.join(out, "impl.txt")).read().splitlines()
     model = model.splitlines()
     cl = cases.splitlines()
+    res["diffs"] += crosscheck_vm(ctx, "%s%d" % (run["kind"], idx), cl, model, ROOT)
     proj = run.get("project", lambda l: l)
     ndiff = 0
     for i in range(min(len(impl), len(model))):
@@ -356,6 +399,7 @@ def run_tx(ctx, pid, run, idx, replay, BUILD, ROOT):
     impl = open(os.path.join(out, "impl.txt")).read().splitlines()
     model = model.splitlines()
     cl = cases.splitlines()
+    res["diffs"] += crosscheck_vm(ctx, "%s%d" % (run["kind"], idx), cl, model, ROOT)
     ndiff = 0
     if run.get("compare", True):
         for i in range(min(len(impl), len(model))):
@@ -456,6 +500,7 @@ def run_parse(ctx, pid, run, idx, replay, BUILD, ROOT):
     impl = open(os.path.join(out, "impl.txt")).read().splitlines()
     model = model.splitlines()
     cl = cases.splitlines()
+    res["diffs"] += crosscheck_vm(ctx, "%s%d" % (run["kind"], idx), cl, model, ROOT)
     proj = run["project"]
     ndiff = 0
     for i in range(min(len(impl), len(model))):
@@ -507,6 +552,7 @@ def run_scan(ctx, pid, run, idx, replay, BUILD, ROOT):
     impl = open(os.path.join(out, "impl.txt")).read().splitlines()
     model = model.splitlines()
     cl = cases.splitlines()
+    res["diffs"] += crosscheck_vm(ctx, "%s%d" % (run["kind"], idx), cl, model, ROOT)
     proj = run.get("project", lambda l: l)
     ndiff = 0
     for i in range(min(len(impl), len(model))):
